@@ -174,6 +174,20 @@ class G(Base):
     def q(self):
         hit("q"); return self.a + self.c
 ''', sources={"a": "int", "b": "int", "c": "int"}, derived={"p": (["a"], lambda s: s["a"] * 2, "cached"), "q": (["a", "c"], lambda s: s["a"] + s["c"], "cached")}),
+    "subclass_redefault_dependant": dict(src='''
+@spec_class
+class Base:
+    a: int = 1
+    b: int = 10
+    d: int = Attr(default=0, invalidated_by=["a"])
+    @spec_property(cache=True, invalidated_by=["a"])
+    def p(self):
+        hit("p"); return self.a * 2
+
+@spec_class
+class G(Base):
+    d = 7
+''', sources={"a": "int", "b": "int"}, derived={"d": (["a"], None, "attr"), "p": (["a"], lambda s: s["a"] * 2, "cached")}, attr_default=7),
     "post_init_fill": dict(src='''
 @spec_class
 class G:
@@ -322,7 +336,7 @@ class Ref:
         self.src = {k: copy.deepcopy(SRC_DEFAULT[k]) for k, kind in self.g["sources"].items() if kind != "int_nodefault"}
         self.src.update(self.g.get("init_src", {}))
         self.override = {}
-        self.attr_val = {d: 0 for d, (_, _, k) in self.g["derived"].items() if k == "attr"}
+        self.attr_val = {d: self.g.get("attr_default", 0) for d, (_, _, k) in self.g["derived"].items() if k == "attr"}
 
     def clone(self):
         r = copy.copy(self)
@@ -347,7 +361,7 @@ class Ref:
         for d in transitive_dependants(self.g, name):
             self.override.pop(d, None)
             if d in self.attr_val:
-                self.attr_val[d] = 0
+                self.attr_val[d] = self.g.get("attr_default", 0)
         if "*" in str([deps for deps, _, _ in self.g["derived"].values()]):
             pass
 
@@ -473,7 +487,7 @@ def apply(ns, obj, ref, op):
                     continue  # (a property-backed attribute without deleter cannot be deleted: reset leaves it)
                 r2.del_src(k)
             for d in r2.attr_val:
-                r2.attr_val[d] = 0
+                r2.attr_val[d] = r2.g.get("attr_default", 0)
                 r2.changed(d)
             if graph_of(g) == "managed_annotated_property" and "p" in r2.override:
                 r2.override.pop("p", None)
@@ -638,7 +652,7 @@ def main(run):
     for rec in pmap(explore, tasks):
         run.merge(rec)
     run.add(rule=(
-        "per dependency graph (15 graphs): BFS over histories of {read, override, delete of each derived value; setattr / delattr / "
+        "per dependency graph (%d graphs)" % len(GRAPHS) + ": BFS over histories of {read, override, delete of each derived value; setattr / delattr / "
         "with_ / transform_ / reset_ / update / transform / element helper (in place and copy-on-write), failing and unrelated mutations "
         "of each source; reset; deepcopy}; state = (reference state, instance fingerprint); after every transition all derived values "
         "are read on a replayed twin and compared with the reference getters; non-trivial = new distinct state"
